@@ -230,8 +230,27 @@ class Check:
                 self.known_hits.append((hit["id"], hit["what"]))
                 self._known_struct.append(skey)
             else:
-                path = self.write_replay(label, {"obligation": label, "kind": "structural", "detail": detail, "meta": _jsonable(meta)})
-                self.violations.append((label, path, detail, meta.get("no_input", True)))
+                doc = {"obligation": label, "kind": "structural", "detail": detail, "meta": _jsonable(meta)}
+                noinput = meta.get("no_input", True)
+                text = detail
+                # a clause decided on the code's structure has no solver model; the property's replayer may still find a failing input
+                rep = None
+                for pref, fn in self.replayers.items():
+                    if label.startswith(pref):
+                        rep = fn
+                        break
+                if rep is not None and label not in self._replay_tried:
+                    self._replay_tried.add(label)
+                    try:
+                        reproduced, rtext, inp = rep(Obl(label, "", 0, [], None, meta=dict(meta)), {})
+                    except Exception as e:
+                        reproduced, rtext, inp = None, "replay harness error: %r" % (e,), None
+                    doc.update({"replayed_on_real_code": reproduced, "replay_input": _jsonable(inp), "replay_output": rtext})
+                    if reproduced:
+                        noinput = False
+                    text = "%s\n%s" % (detail, rtext)
+                path = self.write_replay(label, doc)
+                self.violations.append((label, path, text, noinput))
         for label, bound, cases, bad in self.bounded_runs:
             for b in bad:
                 hit = None
